@@ -224,9 +224,6 @@ func (e *Exec) runInits() {
 		if !(initPkgs[path] || strings.HasPrefix(path, repoMod)) {
 			return
 		}
-		if strings.HasSuffix(path, "/cmd/liquid") {
-			return
-		}
 		initFn := p.Func("init")
 		if initFn == nil {
 			return
